@@ -61,12 +61,13 @@ type loopEffects struct {
 	elemTypes map[string]types.Type
 	maps      map[string]types.Type
 	ghosts    map[string]bool
+	iters     map[*ssa.Range]bool // map iterators advanced inside the loop
 	unknown   bool
 }
 
 func newLoopEffects() *loopEffects {
 	return &loopEffects{cells: map[*ssa.Alloc]bool{}, objs: map[*ssa.Alloc]bool{}, heapTypes: map[string]types.Type{},
-		elemTypes: map[string]types.Type{}, maps: map[string]types.Type{}, ghosts: map[string]bool{}}
+		elemTypes: map[string]types.Type{}, maps: map[string]types.Type{}, ghosts: map[string]bool{}, iters: map[*ssa.Range]bool{}}
 }
 
 // addrRoot traces an address operand to its root.
@@ -133,6 +134,10 @@ func (x *Exec) collectEffects(fn *ssa.Function, blocks map[*ssa.BasicBlock]bool,
 			switch v := in.(type) {
 			case *ssa.Store:
 				addWrite(v.Addr, true)
+			case *ssa.Next:
+				if rg, ok := v.Iter.(*ssa.Range); ok && depth == 0 {
+					eff.iters[rg] = true
+				}
 			case *ssa.MapUpdate:
 				eff.maps[heapTypeKey(v.Map.Type())] = v.Map.Type()
 			case ssa.CallInstruction:
@@ -407,6 +412,20 @@ func (x *Exec) loopCut(fr *Frame, st *State, b *ssa.BasicBlock, backEdge bool) b
 			st.Cells[p.Ptr.Cell] = nv
 		}
 	}
+	{
+		var its []*ssa.Range
+		for rg := range eff.iters {
+			its = append(its, rg)
+		}
+		sort.Slice(its, func(i, j int) bool { return its[i].Pos() < its[j].Pos() })
+		for _, rg := range its {
+			if it, ok := fr.regs[rg]; ok && it.K == VPtr && it.Ptr != nil && it.Ptr.Base == PCell {
+				if cur, ok := st.Cells[it.Ptr.Cell]; ok && cur.K == VArr {
+					st.Cells[it.Ptr.Cell] = &Val{K: VArr, T: Const(freshName("loop:yielded"), cur.T.Sort)}
+				}
+			}
+		}
+	}
 	for _, al := range sortedAllocs(eff.objs) {
 		if p, ok := fr.regs[al]; ok && p.K == VPtr && p.Ptr.Base == PObj {
 			t := ptrElem(al.Type())
@@ -538,6 +557,21 @@ func (x *Exec) resolveLocal(fr *Frame, st *State, b *ssa.BasicBlock, name string
 			}
 		}
 		sfail("\\i used in a loop that is not a range-over-slice loop")
+	}
+	if name == "\\yielded" {
+		// the set of keys the map iterator of this loop has yielded so far
+		for _, in := range b.Instrs {
+			if nx, ok := in.(*ssa.Next); ok {
+				if rg, ok := nx.Iter.(*ssa.Range); ok {
+					if it, ok := fr.regs[rg]; ok && it.K == VPtr && it.Ptr != nil && it.Ptr.Base == PCell {
+						if cur, ok := st.Cells[it.Ptr.Cell]; ok {
+							return cur
+						}
+					}
+				}
+			}
+		}
+		sfail("\\yielded used in a loop that does not range over a map")
 	}
 	if name == "\\o" {
 		// the number of completed iterations of the nearest enclosing range-over-slice loop
